@@ -392,7 +392,9 @@ class PDDLWriter:
                 out.write(" :typing")
             if self.problem_kind.has_negative_conditions():
                 out.write(" :negative-preconditions")
-            if self.problem_kind.has_disjunctive_conditions():
+            if self.problem_kind.has_disjunctive_conditions() or _uses_iff(
+                self.problem
+            ):
                 out.write(" :disjunctive-preconditions")
             if self.problem_kind.has_equalities():
                 out.write(" :equality")
@@ -1079,6 +1081,25 @@ class PDDLWriter:
             if item in costs:
                 out.write(f" (increase (total-cost) {converter.convert(costs[item])})")
             out.write(")")
+
+
+def _uses_iff(problem: "up.model.Problem") -> bool:
+    """Iff is written as two (imply ...), which needs :disjunctive-preconditions."""
+    exps = list(problem.goals)
+    for a in problem.actions:
+        if isinstance(a, up.model.InstantaneousAction):
+            exps.extend(a.preconditions)
+            exps.extend(e.condition for e in a.effects)
+        elif isinstance(a, DurativeAction):
+            exps.extend(c for cl in a.conditions.values() for c in cl)
+            exps.extend(e.condition for el in a.effects.values() for e in el)
+    stack = [e.simplify() for e in exps]
+    while stack:
+        x = stack.pop()
+        if x.is_iff():
+            return True
+        stack.extend(x.args)
+    return False
 
 
 def _get_pddl_name(
